@@ -84,6 +84,23 @@ CHECKS["C04"] = dict(
          "change; quick tier opens at most 90 images per history; the write-ordering design itself is not model-checked "
          "yet (the contract is evaluated on real recoveries only); MetaWritten in the property's weak form",
     design_ref="5 C04")
+CHECKS["C06"] = dict(
+    engine="configcluster",
+    technique="TLA+ spec ConfigCluster.tla (routing, commit, answer, echo of routed publishes, apply, compaction, crash / "
+              "restart, elections over an abstract committed log; invariants AckedCommitted, Converged; three Defect_* "
+              "negative controls) model-checked by TLC for 3 nodes; (1) histories recorded on REAL three-node clusters under "
+              "seeded fault schedules validated by TLC against the spec (Trace_ConfigCluster.tla, commits placed silently); "
+              "(2) TLC-simulated behaviours projected on each node and replayed on real mini nodes (apply, echo, compaction, "
+              "restart), served values compared with the spec after every step",
+    text="Cluster histories: calls via any node, answers, SIGKILL / SIGSTOP faults and restarts, values served by every live "
+         "node at quiescent points and after a final round of restarts; trace validation decides whether some placement of "
+         "the commits explains all answers and reads. Node-level replay decides the interaction of applies, echoes, snapshots "
+         "and restarts for every order the model allows.",
+    note="cluster nodes are mini-node processes with the real start-up wiring and real gRPC services (no HTTP layer); Raft "
+         "is abstracted to one committed sequence; clients are sequential; a leader is only taken away at quiescent moments "
+         "except in the dedicated scenarios; three findings are listed as known (two in async-raft-ext 0.6.3: commit without "
+         "majority on the bootstrap leader, entries skipped at a leader change; one in ConfigActor: late echo overwrites)",
+    design_ref="5 C06")
 CHECKS["C07"] = dict(
     engine="statemachine",
     technique="TLA+ spec StateMachine.tla (ApplyReq reference semantics), TLC-generated request sequences and batch "
